@@ -40,6 +40,10 @@ pub struct PuppetSpec {
     /// a source that reacts to being told to stop (merge / combine members only): inside that
     /// call, (0, j) the late sibling j greets, (1, j) the listenable sibling j emits its next item
     pub on_stop: Option<(u8, usize)>,
+    /// for_each cases only: when the callback `f` is handed this puppet's k-th datum (0-based) it
+    /// makes the (listenable) puppet emit its next script item from inside `f` - a subject that is
+    /// fed, completed or failed by the very callback that consumes it
+    pub feedback: Option<usize>,
 }
 
 #[derive(Debug)]
@@ -162,6 +166,8 @@ impl<T: Clone + Send + Sync + 'static> Puppet<T> {
     }
 
     fn greet_sub(self: &Arc<Self>, sub: &Arc<Sub<T>>) {
+        let owner = self.world.with_edge(sub.edge, |e| e.owner);
+        let _o = self.world.owner_scope(owner);
         {
             let mut st = sub.st.lock().unwrap();
             if st.greeted {
@@ -267,6 +273,8 @@ impl<T: Clone + Send + Sync + 'static> Puppet<T> {
     /// Emit the next script item of this subscription (a datum or the terminal), if the
     /// subscription is greeted, not ended and not stopped. Returns whether something was sent.
     pub fn emit_next(self: &Arc<Self>, sub: &Arc<Sub<T>>) -> bool {
+        let owner = self.world.with_edge(sub.edge, |e| e.owner);
+        let _o = self.world.owner_scope(owner);
         enum What<T> {
             Data(Val, T),
             End,
